@@ -119,6 +119,9 @@ def mk_mul(factors: Iterable[Term]) -> Term:
     flat.sort(key=tkey)
     if isinstance(c, float) and c == int(c) and abs(c) < 2**53:
         c = int(c)
+    if c == -1 and len(flat) == 1 and flat[0][0] == "add":
+        # -(a + b) = -a - b exactly (negation commutes with rounding)
+        return mk_add([mk_mul([("const", -1), x]) for x in flat[0][1:]])
     if c != 1 or not flat:
         flat.insert(0, ("const", c))
     if len(flat) == 1:
@@ -333,7 +336,7 @@ def show(t: Any, depth: int = 0) -> str:
 # --------------------------------------------------------------------------- evaluation
 @dataclass
 class Logged:
-    kind: str  # 'call' | 'store' | 'aug' | 'return' | 'raise' | 'assign' | 'del'
+    kind: str  # 'call' | 'store' | 'aug' | 'return' | 'raise' | 'assign' | 'del' | 'test'
     node: ast.AST
     target: Optional[Term]  # call: function term; store/aug/assign: target term
     value: Optional[Term]  # call: the whole call term; others: value term
@@ -350,6 +353,7 @@ class Logged:
 class Outcome:
     env: Optional[dict]  # None: the block never falls through
     ret: Optional[Term]  # term with FALL placeholders, or None when no path returns/raises
+    path: Term = TRUE  # path condition holding when the block falls through
 
 
 class Sym:
@@ -483,6 +487,7 @@ class Sym:
             return parts[0] if len(parts) == 1 else mk_and(parts)
         if isinstance(e, ast.IfExp):
             c = _strip_bool(E(e.test))
+            self._record("test", e, None, c, path, loops)
             a = self.ev(e.body, env, mk_and([path, c]), loops)
             b = self.ev(e.orelse, env, mk_and([path, mk_not(c)]), loops)
             return mk_ifexp(c, a, b)
@@ -658,7 +663,7 @@ class Sym:
             if o.ret is not None:
                 ret = o.ret if ret is None else self._fill(ret, o.ret)
             cur = o.env
-        return Outcome(cur, ret)
+        return Outcome(cur, ret, p)
 
     def stmt(self, st: ast.stmt, env: dict, path: Term, loops: tuple) -> tuple[Outcome, Term]:
         """Returns (outcome, path condition holding *after* the statement when it falls through)."""
@@ -708,9 +713,11 @@ class Sym:
             return Outcome(None, t), path
         if isinstance(st, ast.Assert):
             c = _strip_bool(ev(st.test))
+            self._record("test", st, None, c, path, loops)
             return Outcome(env, None), mk_and([path, c])
         if isinstance(st, ast.If):
             c = _strip_bool(ev(st.test))
+            self._record("test", st, None, c, path, loops)
             e1, e2 = dict(env), dict(env)
             p1, p2 = mk_and([path, c]), mk_and([path, mk_not(c)])
             o1 = self.block(st.body, e1, p1, loops)
@@ -721,13 +728,20 @@ class Sym:
             if o1.env is None and o2.env is None:
                 return Outcome(None, ret), path
             if o1.env is None:
-                return Outcome(o2.env, ret), p2
+                return Outcome(o2.env, ret), o2.path
             if o2.env is None:
-                return Outcome(o1.env, ret), p1
+                return Outcome(o1.env, ret), o1.path
             merged = {}
             for k in set(o1.env) | set(o2.env):
                 merged[k] = mk_ifexp(c, o1.env.get(k, env.get(k, UNDEF)), o2.env.get(k, env.get(k, UNDEF)))
-            return Outcome(merged, ret), path
+            # what each branch learnt on the way (early exits inside it) survives as a disjunction
+            base = set(conj_of(path))
+            x1 = [l for l in conj_of(o1.path) if l not in base and l != c]
+            x2 = [l for l in conj_of(o2.path) if l not in base and l != mk_not(c)]
+            after = path
+            if x1 or x2:
+                after = mk_and([path, mk_or([mk_and([c] + x1), mk_and([mk_not(c)] + x2)])])
+            return Outcome(merged, ret), after
         if isinstance(st, (ast.For, ast.AsyncFor)):
             return self._for(st, env, path, loops), path
         if isinstance(st, ast.While):
@@ -738,6 +752,7 @@ class Sym:
             for k in assigned:
                 e2[k] = ("carried", k)
             c2 = _strip_bool(self.ev(st.test, e2, path, loops))
+            self._record("test", st, None, c2, path, loops)
             o = self.block(st.body, e2, mk_and([path, c2]), loops + (("while", c2),))
             out = dict(env)
             for k in assigned:
@@ -750,7 +765,7 @@ class Sym:
                 if it.optional_vars is not None:
                     self._bind_target(it.optional_vars, ("enter", t), env)
             o = self.block(st.body, env, path, loops)
-            return o, path
+            return o, o.path
         if isinstance(st, ast.Try):
             pre_env = dict(env)
             o = self.block(st.body, env, path, loops)
@@ -996,6 +1011,14 @@ def _match(p: Any, t: Any, b: dict) -> Optional[dict]:
             return None
         return _match_ac(p[0], list(p[1:]), list(t[1:]), b)
     if len(p) != len(t):
+        return None
+    if p[0] == "cmp" and t[0] == "cmp" and p[1] == t[1] and p[1] in SYMM:
+        for x, y in ((t[2], t[3]), (t[3], t[2])):
+            r = _match(p[2], x, b)
+            if r is not None:
+                r = _match(p[3], y, r)
+                if r is not None:
+                    return r
         return None
     cur: Optional[dict] = b
     for x, y in zip(p, t):
